@@ -13,9 +13,10 @@ func BeginBlocker(ctx sdk.Context, k keeper.Keeper) {
 	defer telemetry.ModuleMeasureSince(types.ModuleName, time.Now(), telemetry.MetricKeyBeginBlocker)
 	subDistributors := k.GetParams(ctx).SubDistributors
 	states := k.GetAllStates(ctx)
+	failedSweeps := make(map[string]bool)
 
 	for _, subDistributor := range subDistributors {
-		allCoinsToDistribute := k.PrepareCoinsToDistribute(subDistributor.Sources, ctx, states, subDistributor.Name)
+		allCoinsToDistribute := k.PrepareCoinsToDistribute(subDistributor.Sources, ctx, states, subDistributor.Name, failedSweeps)
 		if allCoinsToDistribute.IsZero() {
 			continue
 		}
